@@ -180,6 +180,7 @@ def main() -> int:
     with mp.get_context("fork").Pool(min(NCPU, 16)) as p:
         out = p.map(run_one, cases, chunksize=16)
     dist = {"cases": len(cases), "outcomes": {}, "reached_extractor": 0}
+    dist_ef = {}
     known = {f["id"]: f for f in load_known() if f["property"] == "C10" and f["status"] == "known"}
     for (sql, d, silent), o in zip(cases, out):
         ck.count()
@@ -200,11 +201,26 @@ def main() -> int:
     # ---- tie: error kinds of the tree model on the statements that parse ---------------------------------------
     sample = [(sql, d) for (sql, d, silent), o in zip(cases, out) if not o.startswith("lib:InvalidSyntax") and ";" not in sql.strip().rstrip(";")]
     sample = sample[: (350 if quick else 4000)]
-    res = t2tie.run([{"sql": s, "dialect": d, "metadata": None, "config": {}} for s, d in sample])
+    res = t2tie.run([{"sql": s, "dialect": d, "metadata": None, "config": {}} for s, d in sample], escape_free=True)
+    INTERNAL = ("ERR:IndexError", "ERR:AttributeError", "ERR:KeyError", "ERR:TypeError", "ERR:AssertionError", "ERR:NetworkXError")
+    dist_ef.update({"trees": 0, "escape_free": 0, "not_escape_free": 0, "not_escape_free_examples": []})
     for x in res:
         ck.count()
         if "skip" in x or "parse_error" in x or "model" not in x:
             continue
+        # the hypothesis of c10_total_on_all_trees_partial on the parser's own trees: a tree on which it is false is either a
+        # shape no extractor visits or a reachable crash site; a tree on which it is true and which the implementation
+        # nevertheless leaves with an internal error contradicts the theorem's transfer to the code
+        dist_ef["trees"] += 1
+        if x.get("escape_free") == "ef":
+            dist_ef["escape_free"] += 1
+            if x["impl"].startswith(INTERNAL) or x["model"].startswith(("ERR:IndexError", "ERR:AttributeError", "ERR:KeyError")):
+                disagreements.append({"suite": "T2-escape-free", "dialect": x["rec"]["dialect"], "sql": x["stmt"], "impl": x["impl"][:200],
+                                      "model": x["model"][:200], "broken_transfer": "c10_total_on_all_trees_partial: escape_free holds of this parse tree, yet an internal error came out"})
+        else:
+            dist_ef["not_escape_free"] += 1
+            if len(dist_ef["not_escape_free_examples"]) < 5:
+                dist_ef["not_escape_free_examples"].append({"dialect": x["rec"]["dialect"], "sql": x["stmt"][:200], "impl": x["impl"][:60]})
         if x["impl"] != x["model"]:
             if x["impl"].startswith("ERR") or x["model"].startswith("ERR"):
                 disagreements.append({"suite": "T2-error-kind", "dialect": x["rec"]["dialect"], "sql": x["stmt"], "impl": x["impl"][:300], "model": x["model"][:300]})
@@ -261,6 +277,7 @@ def main() -> int:
     for kid, case in known_hits.items():
         ck.known(kid, known[kid]["what"] + " (e.g. dialect=%s %r)" % (case["dialect"], case["text"][:120]))
     ck.sample({"text": cases[7][0][:200], "dialect": cases[7][1], "outcome": out[7]})
+    dist["escape_free_on_parser_trees"] = dist_ef
     ck.notes["input_distribution"] = dist
     ck.conclude(spec_failures, disagreements, proofs_ok,
                 "correspondence T2 (error kinds) between Tree/Extract.v (theorems c10_*) and the sqlfluff extractors",
